@@ -24,7 +24,7 @@ from pyvc.ops import wrap_term, term_of, truth_term
 from pyvc.cfrag import StrId
 
 I, B = z3.IntSort(), z3.BoolSort()
-P = ("C15", "C04", "C09", "C14", "C01", "C02", "C03")
+P = ("C15", "C04", "C09", "C14", "C01", "C02", "C03", "C06")
 F_NAME, F_BASE = z3.Function("sp_name", I, StrId), z3.Function("sp_basename", I, StrId)
 F_CHG, F_GG, F_SG = z3.Function("sp_charge", I, I), z3.Function("sp_grain_group", I, I), z3.Function("sp_surface_group", I, I)
 F_E, F_G, F_S = z3.Function("sp_is_electron", I, B), z3.Function("sp_is_grain", I, B), z3.Function("sp_is_surface", I, B)
@@ -220,7 +220,7 @@ def _register():
     register(Unit("species_eq_hash", __name__, lambda props=(): SpeciesCtx(props), entry_species,
                   functions=[Species.__eq__, Species.__hash__], props=("C15", "C04", "C09", "C14", "C01", "C02", "C03")))
     register(Unit("reaction_eq_hash", __name__, lambda props=(): ReactionCtx(props), entry_reaction,
-                  functions=[Reaction.rpeq, Reaction.__eq__, Reaction.__hash__], props=("C15", "C14")))
+                  functions=[Reaction.rpeq, Reaction.__eq__, Reaction.__hash__], props=("C15", "C14", "C06")))
 
 
 _register()
